@@ -61,6 +61,7 @@ class ChannelItem(EFLRItem, DimensionedItem):
 
         # need the attribute defined for representation code check
         self._cast_dtype: Union[numpy_dtype_type, None] = None
+        self._cast_dtype_inferred: bool = False  #: True if cast_dtype was taken from the data, not set by the user
 
         self.long_name = EFLROrTextAttribute('long_name', object_class=LongNameSet)
         self.properties = PropertiesAttribute('properties')
@@ -102,13 +103,14 @@ class ChannelItem(EFLRItem, DimensionedItem):
 
         self._set_cast_dtype(dt)
 
-    def _set_cast_dtype(self, dt: Union[numpy_dtype_type, None]) -> None:
+    def _set_cast_dtype(self, dt: Union[numpy_dtype_type, None], inferred: bool = False) -> None:
         """Check that the provided cast dtype is acceptable and set it in the Channel."""
 
         if dt is not None:
             ReprCodeConverter.validate_numpy_dtype(dt)
 
         self._cast_dtype = dt
+        self._cast_dtype_inferred = inferred
         self.representation_code.set_from_dtype(self.cast_dtype)
 
     def set_dimension_and_repr_code_from_data(self, data: SourceDataWrapper) -> None:
@@ -169,12 +171,13 @@ class ChannelItem(EFLRItem, DimensionedItem):
 
         dt = sub_data.dtype
 
-        if self.cast_dtype is not None:
+        if self.cast_dtype is not None and not self._cast_dtype_inferred:
             if dt != self.cast_dtype:
                 logger.warning(f"Data will be cast from {dt} to {self.cast_dtype}")
             return
 
-        self._set_cast_dtype(dt)
+        # (re-)infer from the data of this write; a dtype inferred at an earlier write must not act as a cast
+        self._set_cast_dtype(dt, inferred=True)
 
     def _run_checks_and_set_defaults(self) -> None:
         """Set up default values of ChannelItem parameters if not explicitly set previously."""
